@@ -29,6 +29,11 @@ struct Case {
     base: Vec<Op>,
     /// (position selector, extra op) merged into the base history
     extra: Vec<(u16, XOp)>,
+    /// true: the content lives in a database file and the upgrade is performed by a NEWLY STARTED
+    /// server instance opened on that file (what happens after a binary upgrade); false: upgrade on
+    /// the running instance
+    #[serde(default)]
+    restart: bool,
 }
 
 impl Case {
@@ -148,8 +153,28 @@ fn check(rf: &mut Refs, c: &Case) -> Outcome {
         deleted,
     } = rf;
     rt.block_on(async {
+        let scratch = if c.restart {
+            static N: std::sync::atomic::AtomicU64 = std::sync::atomic::AtomicU64::new(0);
+            let root = std::env::var("VERIF_ROOT").unwrap_or_else(|_| "/verif".into());
+            let dir = std::path::PathBuf::from(root).join("target").join("scratch");
+            let _ = std::fs::create_dir_all(&dir);
+            Some(dir.join(format!("c48-{}-{}.db", std::process::id(), N.fetch_add(1, std::sync::atomic::Ordering::SeqCst))))
+        } else {
+            None
+        };
+        struct Cleanup(Option<std::path::PathBuf>);
+        impl Drop for Cleanup {
+            fn drop(&mut self) {
+                if let Some(p) = &self.0 {
+                    for suffix in ["", "-wal", "-shm"] {
+                        let _ = std::fs::remove_file(format!("{}{}", p.display(), suffix));
+                    }
+                }
+            }
+        }
+        let _cleanup = Cleanup(scratch.clone());
         let mut node = Node {
-            qs: srv::new_qs_at(None, 1, DOMAIN_PREVIOUS_TGT_LEVEL).await,
+            qs: srv::new_qs_at(scratch.as_deref(), 1, DOMAIN_PREVIOUS_TGT_LEVEL).await,
             clock: 10,
         };
         let mut committed = 0usize;
@@ -202,6 +227,17 @@ fn check(rf: &mut Refs, c: &Case) -> Outcome {
 
         // ---- upgrade
         let at = ct(node.clock + 3600);
+        if let Some(path) = &scratch {
+            // restart: a new server instance on the same database file performs the upgrade
+            log.class("upgrade-by-restarted-instance");
+            match srv::new_qs_uninit(Some(path.as_path()), 1, at) {
+                Ok(qs2) => node.qs = qs2,
+                Err(e) => {
+                    log.fail("harness: cannot reopen the database file", format!("{e:?}"));
+                    return;
+                }
+            }
+        }
         if let Err(e) = node.qs.initialise_helper(at, DOMAIN_TGT_LEVEL).await {
             log.fail("upgrade to the target domain level failed", format!("{e:?} history={hist:?}"));
             return;
@@ -418,7 +454,8 @@ fn arb_case(len: std::ops::Range<usize>) -> impl Strategy<Value = Case> {
         ops::arb_history(&w, len),
         proptest::collection::vec((any::<u16>(), extra), 0..8),
     )
-        .prop_map(|(base, extra)| Case { base, extra })
+        .prop_map(|(base, extra)| Case { base, extra, restart: false })
+        .prop_flat_map(|c| proptest::bool::weighted(0.4).prop_map(move |restart| Case { restart, ..c.clone() }))
 }
 
 fn main() {
